@@ -210,7 +210,7 @@ theorem visit_clean {c : DrawCfg} (hrw : RwOk c.rw) {d : Option Style} {s : Scr}
              done := ?_, w_same := rfl, h_same := rfl, style_same := rfl, cursor_same := ⟨rfl, rfl, rfl, rfl⟩,
              flags_same := ⟨rfl, rfl⟩, writes := by simp [ATerm.applyAll, hd], vis_same := ⟨rfl, rfl⟩ }
     · refine { tw := inv.tw, th := inv.th, cw := ?_, ch := ?_, wok := ?_, valid := ?_, g1 := ?_, g2 := ?_, wf := ?_,
-               g3 := ?_, nochaos := inv.nochaos, kcur := ?_, kpen := inv.kpen, q := ?_, dcompat := inv.dcompat }
+               g3 := ?_, kcur := ?_, kpen := inv.kpen, q := ?_, dcompat := inv.dcompat }
       · simpa using inv.cw
       · simpa using inv.ch
       · intro i j; simp only [hcells]; split
@@ -434,7 +434,7 @@ theorem visit_dirty {c : DrawCfg} (hrw : RwOk c.rw) (hct : c.cornerTrick = false
     have hir : ∀ i j, cells'.inRange i j ↔ s.cells.inRange i j := by
       intro i j; simp only [inRange_iff, hdims.1, hdims.2]
     refine { tw := ?_, th := ?_, cw := ?_, ch := ?_, wok := ?_, valid := ?_, g1 := ?_, g2 := ?_, wf := ?_, g3 := ?_,
-             nochaos := ?_, kcur := ?_, kpen := ?_, q := ?_, dcompat := inv.dcompat }
+             kcur := ?_, kpen := ?_, q := ?_, dcompat := inv.dcompat }
     · simp [ht0d.1, htw]
     · simp [ht0d.2, hth]
     · simp [hdims.1, hcw]
@@ -591,7 +591,6 @@ theorem visit_dirty {c : DrawCfg} (hrw : RwOk c.rw) (hct : c.cornerTrick = false
               rw [e, h.2.1] at hold
               rw [hold] at hb; exact absurd hb (by simp)
             simp only [n2, n3, n4, n5, if_false]; exact hold
-    · simp [ht0c, inv.nochaos]
     · -- kcur
       intro hcr
       simp only at hcr ⊢
@@ -997,7 +996,7 @@ def AllDirty (s : Scr) : Prop := ∀ x y, s.cells.inRange x y → (s.cells.cells
 theorem SyncInv.weaken {c : DrawCfg} {d : Option Style} {s : Scr} {t : ATerm} (inv : SyncInv c d s t) :
     SyncInv c none s t :=
   { tw := inv.tw, th := inv.th, cw := inv.cw, ch := inv.ch, wok := inv.wok, valid := inv.valid, g2 := inv.g2, wf := inv.wf,
-    g3 := inv.g3, nochaos := inv.nochaos,
+    g3 := inv.g3,
     g1 := fun x y hr hl hm => by
       obtain ⟨st', h1, h2, _⟩ := inv.g1 x y hr hl hm
       exact ⟨st', h1, h2, by intro _ d' hd'; exact absurd hd' (by simp)⟩ }
@@ -1006,7 +1005,7 @@ theorem SyncInv.weaken {c : DrawCfg} {d : Option Style} {s : Scr} {t : ATerm} (i
 theorem SyncInv.of_allDirty {c : DrawCfg} {d d' : Option Style} {s : Scr} {t : ATerm} (inv : SyncInv c d s t)
     (hall : AllDirty s) : SyncInv c d' s t :=
   { tw := inv.tw, th := inv.th, cw := inv.cw, ch := inv.ch, wok := inv.wok, valid := inv.valid, g2 := inv.g2, wf := inv.wf,
-    g3 := inv.g3, nochaos := inv.nochaos,
+    g3 := inv.g3,
     g1 := fun x y hr _ hm => absurd (hall x y hr) hm }
 
 /-- the invariant for a terminal about which nothing is known, when everything is dirty -/
@@ -1014,13 +1013,24 @@ theorem SyncInv.fresh {c : DrawCfg} {d : Option Style} {s : Scr} {t : ATerm}
     (tw : t.w = s.w) (th : t.h = s.h) (cw : s.cells.w = s.w) (ch : s.cells.h = s.h)
     (wok : ∀ x y, WOk c.rw (s.cells.cells x y))
     (valid : s.style.attrs ≠ attrInvalid ∧ ∀ x y, (s.cells.cells x y).currStyle.attrs ≠ attrInvalid)
-    (hall : AllDirty s) (hg : ∀ x y, t.grid x y = .garbage) (hch : t.chaos = false) : SyncInv c d s t :=
+    (hall : AllDirty s) (hg : ∀ x y, t.grid x y = .garbage) : SyncInv c d s t :=
   { tw := tw, th := th, cw := cw, ch := ch, wok := wok, valid := valid,
     g1 := by intro x y hr _ hm; exact absurd (hall x y hr) hm,
     g2 := by intro x y hr _; exact Or.inr (hall x y hr),
     wf := by intro x y _ h; rw [hg] at h; exact absurd h (by simp),
-    g3 := by intro x y hr _ hm; exact absurd (hall x y hr) hm,
-    nochaos := hch }
+    g3 := by intro x y hr _ hm; exact absurd (hall x y hr) hm }
+
+/-- the part of the invariant that does not speak about the terminal's contents -/
+structure BufOk (c : DrawCfg) (s : Scr) (t : ATerm) : Prop where
+  tw : t.w = s.w
+  th : t.h = s.h
+  cw : s.cells.w = s.w
+  ch : s.cells.h = s.h
+  wok : ∀ x y, WOk c.rw (s.cells.cells x y)
+  valid : s.style.attrs ≠ attrInvalid ∧ ∀ x y, (s.cells.cells x y).currStyle.attrs ≠ attrInvalid
+
+theorem SyncInv.bufOk {c : DrawCfg} {d : Option Style} {s : Scr} {t : ATerm} (inv : SyncInv c d s t) : BufOk c s t :=
+  { tw := inv.tw, th := inv.th, cw := inv.cw, ch := inv.ch, wok := inv.wok, valid := inv.valid }
 
 /-- what a whole draw guarantees -/
 structure DrawPost (c : DrawCfg) (d : Option Style) (s : Scr) (t : ATerm) (s' : Scr) (t' : ATerm) : Prop where
@@ -1068,10 +1078,10 @@ open Buf
 /-- the invariant only reads these components -/
 theorem SyncInv.congr {c : DrawCfg} {d : Option Style} {s s' : Scr} {t t' : ATerm} (inv : SyncInv c d s t)
     (h1 : s'.cells = s.cells) (h2 : s'.w = s.w) (h3 : s'.h = s.h) (h4 : s'.style = s.style)
-    (h5 : t'.grid = t.grid) (h6 : t'.w = t.w) (h7 : t'.h = t.h) (h8 : t'.chaos = t.chaos) : SyncInv c d s' t' := by
+    (h5 : t'.grid = t.grid) (h6 : t'.w = t.w) (h7 : t'.h = t.h) : SyncInv c d s' t' := by
   refine { tw := by rw [h6, h2]; exact inv.tw, th := by rw [h7, h3]; exact inv.th, cw := by rw [h1, h2]; exact inv.cw,
            ch := by rw [h1, h3]; exact inv.ch, wok := by rw [h1]; exact inv.wok, valid := by rw [h1, h4]; exact inv.valid,
-           g1 := ?_, g2 := ?_, wf := ?_, g3 := ?_, nochaos := by rw [h8]; exact inv.nochaos }
+           g1 := ?_, g2 := ?_, wf := ?_, g3 := ?_ }
   · rw [h1, h2, h5]; exact inv.g1
   · rw [h1, h5]; exact inv.g2
   · rw [h1, h5]; exact inv.wf
@@ -1109,14 +1119,15 @@ theorem draw_eq (c : DrawCfg) (s : Scr) :
   simp only [Scr.draw]
 
 theorem draw_post {c : DrawCfg} (hrw : RwOk c.rw) (hct : c.cornerTrick = false) {d : Option Style} {s : Scr} {t : ATerm}
-    (inv : SyncInv c d s t) (hclear : s.clear = true → AllDirty s) :
+    (pre : BufOk c s t) (inv : s.clear = false → SyncInv c d s t) (hclear : s.clear = true → AllDirty s) :
     DrawPost c (if d = some s.style then d else none) s t (s.draw c).1 (t.applyAll (s.draw c).2) := by
   rw [draw_eq]; simp only
   generalize hd1 : (if d = some s.style then d else none) = d1
-  have inv1 : SyncInv c d1 s t := by
+  have inv1 : s.clear = false → SyncInv c d1 s t := by
+    intro hc
     rw [← hd1]; split
-    · exact inv
-    · exact inv.weaken
+    · exact inv hc
+    · exact (inv hc).weaken
   have dc1 : ∀ d', d1 = some d' → d' = s.style := by
     intro d' h; rw [← hd1] at h; split at h
     · rename_i he; rw [he] at h; injection h with h; exact h.symm
@@ -1132,8 +1143,13 @@ theorem draw_post {c : DrawCfg} (hrw : RwOk c.rw) (hct : c.cornerTrick = false) 
   generalize hr1 : s0.hideCursor c = r1 at hh
   obtain ⟨g1, g2, g3, g4, g5, g6, g7, g8, g9, g10, g11, g12, g13, g14, g15⟩ := hh
   generalize ht1 : t.applyAll r1.2 = t1 at *
-  have inv2 : SyncInv c d1 r1.1 t1 :=
-    inv1.congr (g7.trans e01) (g8.trans e02) (g9.trans e03) (g10.trans e04) g1 g2 g3 g4
+  have inv2 : r1.1.clear = false → SyncInv c d1 r1.1 t1 := by
+    intro hc; rw [g12, e05] at hc
+    exact (inv1 hc).congr (g7.trans e01) (g8.trans e02) (g9.trans e03) (g10.trans e04) g1 g2 g3
+  have pre2 : BufOk c r1.1 t1 :=
+    { tw := by rw [g2, g8, e02]; exact pre.tw, th := by rw [g3, g9, e03]; exact pre.th,
+      cw := by rw [g7, e01, g8, e02]; exact pre.cw, ch := by rw [g7, e01, g9, e03]; exact pre.ch,
+      wok := by rw [g7, e01]; exact pre.wok, valid := by rw [g7, e01, g10, e04]; exact pre.valid }
   have hcs1 : r1.1.curstyle = styleInvalid := g11.trans e09
   have hkc1 : r1.1.cells.inRange r1.1.cx r1.1.cy → t1.cur = some (r1.1.cx, r1.1.cy) := by
     intro hr
@@ -1157,14 +1173,14 @@ theorem draw_post {c : DrawCfg} (hrw : RwOk c.rw) (hct : c.cornerTrick = false) 
     cases hcl : r1.1.clear
     · rw [hcl] at hr2; simp only [Bool.false_eq_true, if_false] at hr2
       rw [← hr2] at ht2 ⊢; simp only [applyAll_nil] at ht2; rw [← ht2]
-      exact ⟨inv2, rfl, rfl, rfl, rfl, rfl, hcl, rfl, rfl, rfl, ⟨rfl, rfl, rfl, rfl⟩, rfl, rfl, rfl, hkc1⟩
+      exact ⟨inv2 hcl, rfl, rfl, rfl, rfl, rfl, hcl, rfl, rfl, rfl, ⟨rfl, rfl, rfl, rfl⟩, rfl, rfl, rfl, hkc1⟩
     · rw [hcl] at hr2; simp only [if_true] at hr2
       have e1 : r2.1 = { r1.1 with clear := false } := by rw [← hr2]; rfl
       have e2 : r2.2 = [Cmd.clear r1.1.style] := by rw [← hr2]; rfl
       have e3 : t2 = { t1.allGarbage with cur := none, pen := none } := by rw [← ht2, e2]; rfl
       rw [e1, e3]
       refine ⟨?_, rfl, rfl, rfl, rfl, rfl, rfl, rfl, rfl, rfl, ⟨rfl, rfl, rfl, rfl⟩, rfl, rfl, rfl, ?_⟩
-      · exact SyncInv.fresh inv2.tw inv2.th inv2.cw inv2.ch inv2.wok inv2.valid (hall1 hcl) (fun _ _ => rfl) inv2.nochaos
+      · exact SyncInv.fresh pre2.tw pre2.th pre2.cw pre2.ch pre2.wok pre2.valid (hall1 hcl) (fun _ _ => rfl)
       · intro hr; exfalso
         cases hh : c.hasHide
         · obtain ⟨_, k2, k3⟩ := g15.2 hh
@@ -1191,14 +1207,14 @@ theorem draw_post {c : DrawCfg} (hrw : RwOk c.rw) (hct : c.cornerTrick = false) 
   have hh2 : r2.1.h = s.h := by rw [f3, g9, e03]
   refine { sync := ?_, gc_same := ?_, lock_same := ?_, done := ?_, w_same := ?_, h_same := ?_, style_same := ?_,
            cursor_same := ?_, clear_done := ?_, fini_same := ?_, cursor := ?_, writes := ?_ }
-  · exact rp.sync.congr k6 k7 k8 k9 k1 k2 k3 k4
+  · exact rp.sync.congr k6 k7 k8 k9 k1 k2 k3
   · intro i j; rw [k6, rp.gc_same, hcells2]
   · intro i j; rw [k6, rp.lock_same, hcells2]
   · intro x y hr hv hl
     rw [k6]
-    have hy : 0 ≤ y ∧ y < s.h := by have := inv.ch; simp only [inRange_iff] at hr; omega
+    have hy : 0 ≤ y ∧ y < s.h := by have := pre.ch; simp only [inRange_iff] at hr; omega
     apply rp.done y x (by omega) (by rw [hh2]; omega) (by rw [hh2]; exact hy.2)
-    · rw [hcells2, hw2]; simpa [visited, inv.cw] using hv
+    · rw [hcells2, hw2]; simpa [visited, pre.cw] using hv
     · rw [hcells2]; exact hl
   · rw [k7, rp.w_same, hw2]
   · rw [k8, rp.h_same, hh2]
@@ -1214,9 +1230,9 @@ theorem draw_post {c : DrawCfg} (hrw : RwOk c.rw) (hct : c.cornerTrick = false) 
       obtain ⟨b1, b2, b3, b4⟩ := rp.cursor_same; obtain ⟨c1, c2, c3, c4⟩ := f10; obtain ⟨d1', d2, d3, d4⟩ := g14
       exact ⟨by rw [b1, c1, d1', e010], by rw [b2, c2, d2, e011], by rw [b3, c3, d3, e012], by rw [b4, c4, d4, e013]⟩
     have hc3 : r3.1.cells.w = s.cells.w ∧ r3.1.cells.h = s.cells.h := by
-      rw [rp.sync.cw, rp.sync.ch, rp.w_same, rp.h_same, hw2, hh2, inv.cw, inv.ch]; exact ⟨rfl, rfl⟩
+      rw [rp.sync.cw, rp.sync.ch, rp.w_same, rp.h_same, hw2, hh2, pre.cw, pre.ch]; exact ⟨rfl, rfl⟩
     have ht3d : t3.w = t.w ∧ t3.h = t.h := by
-      rw [rp.sync.tw, rp.sync.th, rp.w_same, rp.h_same, hw2, hh2, inv.tw, inv.th]; exact ⟨rfl, rfl⟩
+      rw [rp.sync.tw, rp.sync.th, rp.w_same, rp.h_same, hw2, hh2, pre.tw, pre.th]; exact ⟨rfl, rfl⟩
     rw [← hr4]
     unfold Scr.showCursor
     simp only [hcx.1, hcx.2.1, hcx.2.2.1, hcx.2.2.2, hc3.1, hc3.2]
@@ -1227,9 +1243,9 @@ theorem draw_post {c : DrawCfg} (hrw : RwOk c.rw) (hct : c.cornerTrick = false) 
       rw [if_neg this]
       simp [ATerm.applyAll, ATerm.apply, ATerm.clampX, ATerm.clampY]
       have h1 : ¬ s.cursorx < 0 := by omega
-      have h2 : ¬ t3.w ≤ s.cursorx := by rw [ht3d.1, inv.tw, ← inv.cw]; omega
+      have h2 : ¬ t3.w ≤ s.cursorx := by rw [ht3d.1, pre.tw, ← pre.cw]; omega
       have h3 : ¬ s.cursory < 0 := by omega
-      have h4 : ¬ t3.h ≤ s.cursory := by rw [ht3d.2, inv.th, ← inv.ch]; omega
+      have h4 : ¬ t3.h ≤ s.cursory := by rw [ht3d.2, pre.th, ← pre.ch]; omega
       simp [h1, h2, h3, h4]
     · intro hr
       have : (s.cursorx < 0 ∨ s.cursory < 0 ∨ s.cursorx ≥ s.cells.w ∨ s.cursory ≥ s.cells.h) := by
